@@ -36,7 +36,14 @@ def main():
                 if what in ("obs", "both"):
                     out["obs"] = mod.impl_obs(case)
                 if what in ("oracle", "both") and hasattr(mod, "oracle"):
-                    out["oracle"] = mod.oracle(case)
+                    try:
+                        out["oracle"] = mod.oracle(case)
+                    except CaseTimeout:
+                        raise
+                    except RecursionError:
+                        out["oracle"] = None
+                    except Exception as e:  # a bug in the oracle must be visible, not an alarm on the code
+                        out["oracle_error"] = f"{type(e).__name__}: {e}"
             signal.alarm(0)
         except CaseTimeout:
             out["obs"] = ["timeout"]
